@@ -111,7 +111,8 @@ def check_affine_scale(ctx, x, scale, zp, bits, axis, gs, site, desc):
         w = oracles._first(bad, x=X, s=S, zp=Z, q=q, lo=lo, hi=hi)
         ctx.violation(dict(sig, kind="saturating_scale"), dict(w, desc=desc))
     # zero scale only for all-zero groups
-    bad = ~nz & ((hi - lo) > 0)
+    # zero scale only when the nominal step itself rounds to zero in the working dtype
+    bad = ~nz & ((hi - lo) / nlev > num.smallest_subnormal(wd))
     if bad.any():
         ctx.violation(dict(sig, kind="null_scale_for_nonzero_group"), dict(oracles._first(bad, lo=lo, hi=hi), desc=desc))
     # (b) full range
